@@ -1,4 +1,5 @@
 import gfapy
+import re
 
 class Trace(list):
   """Trace alignment.
@@ -73,6 +74,8 @@ class Trace(list):
   @classmethod
   def _from_string(cls,string):
     try:
+      if not re.match(r"^[-+]?[0-9]+(,[-+]?[0-9]+)*$", string):
+        raise gfapy.FormatError()
       return Trace([int(v) for v in string.split(",")])
     except:
       raise gfapy.FormatError("string does not encode"+
